@@ -37,7 +37,30 @@ fn wrap(kind: &str, inner: Box<dyn Adapter>) -> Box<dyn Adapter> {
     }
 }
 
+static OPEN_COUNT: std::sync::atomic::AtomicUsize = std::sync::atomic::AtomicUsize::new(0);
+
+/// the library's own factory (`adapter::get_adapter`), which selects backend and wrapper from a URL
+fn open_by_url(kind: &str, path: &str) -> Option<Box<dyn Adapter>> {
+    let mut it = kind.splitn(2, '+');
+    let (base, wrapper) = (it.next().unwrap(), it.next().map(|w| format!("+{}", w)).unwrap_or_default());
+    let url = match base {
+        "memory" => format!("memory{}://", wrapper),
+        "fs" => format!("file{}://{}", wrapper, path),
+        "sqlite" => format!("sqlite{}://{}", wrapper, path),
+        "sqlitemem" => format!("sqlite{}::memory:", wrapper),
+        _ => return None,
+    };
+    melda::adapter::get_adapter(&url).ok()
+}
+
 pub fn open_real(kind: &str, path: &str) -> DynA {
+    // every other backend is built through the URL factory, the others through the constructors
+    if OPEN_COUNT.fetch_add(1, std::sync::atomic::Ordering::SeqCst) % 2 == 1 {
+        if let Some(a) = open_by_url(kind, path) {
+            return Arc::new(RwLock::new(a));
+        }
+        panic!("get_adapter refused the url for backend {}", kind);
+    }
     let base = kind.split('+').next().unwrap();
     let inner: Box<dyn Adapter> = match base {
         "memory" => Box::new(melda::memoryadapter::MemoryAdapter::new()),
@@ -1377,6 +1400,24 @@ impl World {
                 let now: Vec<String> = m.get_anchors().iter().map(|x| x.to_string()).collect();
                 if now != anchors {
                     fails.push(("C14", format!("heads after time travel are {:?}, expected {:?}", now, anchors)));
+                }
+                // the constructor that opens a new replica directly in the past (`new_until`) shows the same
+                if !self.light {
+                    let st = SimStore::from_items(self.reps[r].be.snapshot());
+                    match catch_unwind(AssertUnwindSafe(|| Melda::new_until(st.dyn_adapter(), &set))) {
+                        Ok(Ok(m2)) => {
+                            let o2 = obs_noblocks(&m2);
+                            if o2 != got {
+                                fails.push(("C14", format!("a replica opened with new_until at {:?} differs from reload_until to the same heads: {}", anchors, first_diff(&got, &o2))));
+                            }
+                            *self.stats.entry("new_until".into()).or_insert(0) += 1;
+                        }
+                        Ok(Err(e)) => fails.push(("C14", format!("new_until at former heads {:?} failed: {}", anchors, msg_prefix(&e.to_string())))),
+                        Err(_) => {
+                            fails.push(("C14", format!("new_until at former heads {:?} aborted", anchors)));
+                            fails.push(("C08", format!("new_until at former heads {:?} aborted", anchors)));
+                        }
+                    }
                 }
                 // every revision of the loaded history stays retrievable
                 for u in m.get_all_objects() {
